@@ -422,6 +422,9 @@ def gen_slices(rng, n):
                 return rng.randint(0, n + 1)
             return -rng.randint(1, n + 2)
         out.append([bound(), bound()])
+    if rng.random() < 0.25:
+        # a last slice with a step (answered from the loaded list): backwards, every other fit, ...
+        out = out[:2] + [[bound(), bound(), rng.choice([-1, -1, -2, 2, 3, -3])]]
     return out
 
 
@@ -478,8 +481,24 @@ def const_py(c):
     return class_of(c["name"])
 
 
+LEAVES = {}
+
+
 def build(agg, p):
-    """the predicate written with the aggregator's query objects, as a user would"""
+    """the predicate written with the aggregator's query objects, as a user would; a condition that occurs
+    again (in this or a later query on the same aggregator) is the *same object*, as when a user names it
+    (`bright = agg.model.x > 1; agg.query(~bright); agg.query(bright)`): query objects are values"""
+    if p["k"] not in ("and", "or", "not"):
+        key = (id(agg), json.dumps(p, sort_keys=True, default=str))
+        if key not in LEAVES:
+            if len(LEAVES) > 4000:
+                LEAVES.clear()
+            LEAVES[key] = _build(agg, p)
+        return LEAVES[key]
+    return _build(agg, p)
+
+
+def _build(agg, p):
     k = p["k"]
     if k == "path":
         q = agg.model
@@ -546,9 +565,9 @@ def run_real(real, pred, orders, slices, chain_query):
         res = full
         if slices:
             b = a
-            for s0, s1 in slices:
-                b = b[s0:s1]
-            res = [f.id for f in b.fits]
+            for sl in slices:
+                b = b[sl[0]:sl[1]] if len(sl) == 2 else b[sl[0]:sl[1]:sl[2]]
+            res = [f.id for f in (b if isinstance(b, list) else b.fits)]
         return {"full": full, "result": res}
     except Exception as e:  # the kind of exception is the observable
         return {"err": f"{type(e).__name__}: {str(e)[:200]}"}
@@ -731,8 +750,8 @@ def judge(dbd, real, pred, orders, slices, impl):
     cmp = key_cmp(orders)
     want_sorted = [r["id"] for r in sorted(sel, key=functools.cmp_to_key(cmp))] if orders else want_ids
     want_res = want_sorted
-    for s0, s1 in slices:
-        want_res = want_res[s0:s1]
+    for sl in slices:
+        want_res = want_res[sl[0]:sl[1]] if len(sl) == 2 else want_res[sl[0]:sl[1]:sl[2]]
     by_id = {r["id"]: r for r in recs}
     problems = []
     if "err" in impl:
@@ -874,7 +893,9 @@ def one_case(ctx, dbd, real, pred, orders, slices, chain_query=False, label="gen
 
     # ---- model
     req = {"p": "C10", "cfg": cfg, "db": [wire_fit(r, real.objects[r["id"]], real.instance_ids.get(r["id"])) for r in recs],
-           "rows": real.rows, "pred": wire_pred(pred), "orders": orders, "slices": slices}
+           "rows": real.rows, "pred": wire_pred(pred), "orders": orders, "slices": [sl for sl in slices if len(sl) == 2]}
+    if slices and len(slices[-1]) == 3:
+        req["step_slice"] = slices[-1]
     ans = ctx.lean.ask(req)
     if "driver_error" in ans:
         ctx.disagree("driver", case, None, ans)
@@ -976,7 +997,9 @@ def hits(ctx, render, feats, orders, slices, want_ids, recs):
     if any(o["reverse"] for o in orders):
         ctx.hit("order-reverse")
     ctx.hit(f"slices:{len(slices)}")
-    if any((a is not None and a < 0) or (b is not None and b < 0) for a, b in slices):
+    if any(len(sl) == 3 for sl in slices):
+        ctx.hit("slice:stepped")
+    if any((sl[0] is not None and sl[0] < 0) or (sl[1] is not None and sl[1] < 0) for sl in slices):
         ctx.hit("slice-negative")
     if not want_ids:
         ctx.hit("selects-none")
